@@ -249,6 +249,9 @@ def translate(row, sid, cfg=None):
             out.append(f"walWrite {r['p']} {r['b']} {r['e']} {int(r['ok'])}")
             if r['ok'] and not r.get('faithful', True):
                 out.append(f"oWalUnfaithful {r['b']} {r['e']} {r['why'].replace(' ', '_')}")
+            if not r['ok'] and r.get('why') == 'serialise' and not r.get('expected'):
+                # the event's payload is serialisable and no fault was injected, yet no line was written for it
+                out.append(f"oWalLineMissing {r['b']} {r['e']}")
         elif k == 'expectHang':
             out.append(f"expectHang {r['x']}")
         elif k == 'waitIdleHang':
